@@ -123,6 +123,12 @@ func (s *VisvalingamSimplifier) simplify(ls orb.LineString, area, wim bool) (orb
 			break
 		}
 
+		if current.previous == nil || current.next == nil {
+			// One of the two end items. Their +Inf area only ties with an interior
+			// triangle whose area overflowed float64; the end points are never removed.
+			continue
+		}
+
 		next := current.next
 		previous := current.previous
 
